@@ -1351,6 +1351,17 @@ func SitesHit() []int {
 	return out
 }
 
+// SiteHitCounts returns the cumulative execution count of every site (debugging aid).
+//
+//go:norace
+func SiteHitCounts() []uint32 {
+	out := make([]uint32, MaxSites)
+	for i := 0; i < MaxSites; i++ {
+		out[i] = siteHit[i]
+	}
+	return out
+}
+
 //go:norace
 func SetStepCap(n int64) { stepCap = n }
 
